@@ -163,8 +163,8 @@ PROPS["C13"] = _hist(
 
 PROPS["C19"] = _hist(
     "C19", ["C19"],
-    dict(classes=("long", "real", "long", "bin"), long=True, pool=(10, 20, 30),
-         weights={"add_page": 6, "add_pages": 2, "add_links": 4, "batch": 3, "create": 3, "addp": 2, "rule": 2, "rmrule": 1, "rmp": 1, "reopen": 1}),
+    dict(classes=("long", "real", "long", "bin"), long=True, pool=(10, 20, 30), rule_prob=0.85,
+         weights={"add_page": 6, "add_pages": 2, "add_links": 4, "batch": 3, "create": 4, "addp": 2, "rule": 3, "rmrule": 1, "rmp": 1, "reopen": 1}),
     "histories over every listed stem length (73..1000) with heavy re-submission; after EVERY request both store sizes are "
     "compared with 1 + sum(ceil(len(last stem)/74)) over the model's stem-prefixes and 1 + 2*submissions, the decoder looks for "
     "unreferenced blocks/stubs, and metrics()/count_links figures are compared with the same quantities. Non-trivial: >= 1 stem "
